@@ -29,6 +29,9 @@ class Chooser:
 def run_kwik(D, s, script, season=False):
     ds = Dataset.from_raw_list([[set(b) for b in r] for r in D])
     sc = ScoringScheme(s)
+    if gen.CURRENT.get("scribbled"):
+        from algos import scribble
+        scribble(ds)
     ch = Chooser(script)
     alg = KwikSortRandom()
     if season:      # the object has served before (with pivots drawn by the real generator: the script is for the judged call only)
@@ -45,6 +48,7 @@ def run_kwik(D, s, script, season=False):
 
 
 class Kwik(Suite):
+    scribbled_rate = 0.1
     seasoned_rate = 0.1     # share of the cases run on algorithm objects that have served before (algos.seasoned)
     name = "kwik"
     imports = ["Scheme", "Rank", "KwikSort", "Judge.JC11"]
@@ -145,6 +149,17 @@ class Where(Suite):
                 continue
             p, o = rng.sample(univ, 2)
             cases.append({"s": gen.pick_scheme(rng), "D": D, "p": p, "o": o})
+        # penalties of very different magnitudes (exactly representable): the three costs of a pair are huge and differ by one unit
+        for _ in range(120 if tier == "quick" else 1500):
+            D = gen.random_dataset(rng, 5, 6)
+            univ = sorted({e for r in D for b in r for e in b})
+            if len(univ) < 2:
+                continue
+            p, o = rng.sample(univ, 2)
+            big = rng.choice([1e6, 2.0 ** 22, 1e7])
+            s = rng.choice([gen.big_scheme(rng), [[0.0, big, big, 0.0, 1.0, 0.0], [big, big, 0.0, 1.0, 1.0, 0.0]],
+                            [[0.0, big, big + 1, 0.0, big, 1.0], [big + 1, big + 1, 0.0, 1.0, 1.0, 0.0]]])
+            cases.append({"s": s, "D": D, "p": p, "o": o})
         return cases
 
     def run(self, case):
